@@ -39,6 +39,9 @@ type Context struct {
 	Errors []error
 
 	index int8
+	// the chain was stopped by Abort(), AbortThen() or AbortWithStatus().
+	// Notice: it can't be derived from the index, a completed chain of abortIndex handlers ends at the same value.
+	aborted bool
 	// current router instance
 	router *Router
 	// context data, you can save some custom data.
@@ -65,16 +68,17 @@ func (c *Context) RawWriter() http.ResponseWriter {
 // Abort will abort at the end of this middleware run
 func (c *Context) Abort() {
 	c.index = abortIndex
+	c.aborted = true
 }
 
 // IsAborted returns true if the current context was aborted.
 func (c *Context) IsAborted() bool {
-	return c.index >= abortIndex
+	return c.aborted
 }
 
 // AbortThen will abort at the end of this middleware run, and return context to continue.
 func (c *Context) AbortThen() *Context {
-	c.index = abortIndex
+	c.Abort()
 	return c
 }
 
@@ -113,6 +117,7 @@ func (c *Context) Next() {
 // Reset context data
 func (c *Context) Reset() {
 	c.index = -1
+	c.aborted = false
 	c.data = nil
 	c.Resp = &c.writer
 	c.Params = nil
@@ -128,6 +133,7 @@ func (c *Context) Copy() *Context {
 	ctx.Resp = &ctx.writer
 	ctx.handlers = nil
 	ctx.index = abortIndex
+	ctx.aborted = true
 	// Notice: the backing array of c.Errors is reused for the next request (see Reset()),
 	// the copy must not share it.
 	if len(c.Errors) > 0 {
